@@ -269,20 +269,30 @@ Lemma rstrip_char_snoc c s : rstrip_char c (s ++ [c]) = rstrip_char c s.
 Proof.
   induction s as [|x s IH]; cbn [app rstrip_char]; [now rewrite byte_eqb_refl|]. now rewrite IH.
 Qed.
-Lemma strip_char_plain c s : has c s = false -> strip_char c s = s.
-Proof. intros H. unfold strip_char. rewrite lstrip_char_nohit, rstrip_char_nohit by exact H. reflexivity. Qed.
-Lemma strip_char_open c s : has c s = false -> strip_char c (c :: s) = s.
-Proof. intros H. unfold strip_char. cbn [lstrip_char]. rewrite byte_eqb_refl. fold (strip_char c s). apply strip_char_plain. exact H. Qed.
-Lemma strip_char_close c s : has c s = false -> strip_char c (s ++ [c]) = s.
+Lemma noq_facts s : noq_ends s = true -> byte_eqb dq (hd sp s) = false /\ byte_eqb dq (last s sp) = false.
+Proof. unfold noq_ends. intros H. apply andb_prop in H. destruct H as [H1 H2]. split; now apply negb_true_iff. Qed.
+Lemma lstrip_char_hd s : byte_eqb dq (hd sp s) = false -> lstrip_char dq s = s.
+Proof. destruct s as [|x s]; [reflexivity|]. cbn. intros H. now rewrite H. Qed.
+Lemma rstrip_char_last s : byte_eqb dq (last s sp) = false -> rstrip_char dq s = s.
 Proof.
-  intros H. unfold strip_char. destruct s as [|x s].
-  - cbn. rewrite byte_eqb_refl. reflexivity.
-  - pose proof H as H'. apply has_false_cons in H'. destruct H' as [H1 _]. cbn [app lstrip_char]. rewrite H1.
-    change (x :: s ++ [c]) with ((x :: s) ++ [c]). rewrite rstrip_char_snoc. apply rstrip_char_nohit. exact H.
+  induction s as [|x s IH]; [reflexivity|]. destruct s as [|y t].
+  - cbn. intros H. now rewrite H.
+  - intros H. change (last (x :: y :: t) sp) with (last (y :: t) sp) in H. cbn [rstrip_char] in IH |- *. rewrite (IH H). reflexivity.
 Qed.
-Lemma strip_char_both c s : has c s = false -> strip_char c (c :: s ++ [c]) = s.
+Lemma strip_char_plain s : noq_ends s = true -> strip_char dq s = s.
+Proof. intros H. destruct (noq_facts s H) as [H1 H2]. unfold strip_char. rewrite lstrip_char_hd by exact H1. apply rstrip_char_last. exact H2. Qed.
+Lemma strip_char_open s : noq_ends s = true -> strip_char dq (dq :: s) = s.
+Proof. intros H. unfold strip_char. cbn [lstrip_char]. rewrite byte_eqb_refl. fold (strip_char dq s). apply strip_char_plain. exact H. Qed.
+Lemma strip_char_close s : noq_ends s = true -> strip_char dq (s ++ [dq]) = s.
 Proof.
-  intros H. unfold strip_char. cbn [lstrip_char]. rewrite byte_eqb_refl. fold (strip_char c (s ++ [c])). apply strip_char_close. exact H.
+  intros H. destruct (noq_facts s H) as [H1 H2]. unfold strip_char. destruct s as [|x s].
+  - reflexivity.
+  - cbn [hd] in H1. cbn [app lstrip_char]. rewrite H1.
+    change (x :: s ++ [dq]) with ((x :: s) ++ [dq]). rewrite rstrip_char_snoc. apply rstrip_char_last. exact H2.
+Qed.
+Lemma strip_char_both s : noq_ends s = true -> strip_char dq (dq :: s ++ [dq]) = s.
+Proof.
+  intros H. unfold strip_char. cbn [lstrip_char]. rewrite byte_eqb_refl. fold (strip_char dq (s ++ [dq])). apply strip_char_close. exact H.
 Qed.
 
 Definition ind : str := spaces 21.
@@ -385,9 +395,14 @@ Definition qpost (excl : list str) (s : st) (lines : list str) (m' : list (str *
 Lemma step_is_fts excl s l : mode s = PFts -> step excl s l = step_fts excl s l.
 Proof. intros H. unfold step. now rewrite H. Qed.
 
-Definition mchunk (c : str) : Prop := c <> [] /\ nows c = true /\ has dq c = false.
+Definition mchunk (c : str) : Prop := c <> [] /\ (is_ws (hd sp c) = false /\ is_ws (last c sp) = false) /\ noq_ends c = true.
 Lemma mchunk_hd c : mchunk c -> is_ws (hd sp c) = false.
-Proof. intros (H1 & H2 & _). destruct (nows_head c H1 H2) as (x & r & E & Hx). subst. exact Hx. Qed.
+Proof. intros (_ & (H & _) & _). exact H. Qed.
+Lemma mchunk_tail c : mchunk c -> tail_ok c.
+Proof.
+  intros (H1 & (_ & H2) & _). exists (removelast c), [last c sp]. split; [apply app_removelast_last; exact H1|].
+  split; [discriminate|]. cbn. now rewrite H2.
+Qed.
 
 Section qual_groups.
   Variable excl : list str.
@@ -403,7 +418,7 @@ Section qual_groups.
       cbn [qtext_go concat]. rewrite app_nil_r. rewrite <- app_assoc.
       destruct (step_qual_cont excl Hex s m k x (c ++ [dq]) Hm Hk2 Hg) as (O & S).
       + exists c, [dq]. repeat split. discriminate.
-      + destruct c; [congruence|]. cbn. destruct (nows_head _ C1 C2) as (y & t & E & Hy). inversion E; subst. exact Hy.
+      + destruct c; [congruence|]. cbn. apply C2.
       + destruct c; [congruence|]. exact Hs1.
       + destruct c; discriminate.
       + split; [constructor; [exact O|constructor]|]. eexists. split; [|split].
@@ -413,7 +428,7 @@ Section qual_groups.
     - inversion Hc as [|? ? Hc1 Hcr]; subst. inversion Hsl as [|? ? Hs1 Hsr]; subst. pose proof Hc1 as (C1 & C2 & C3).
       cbn [qtext_go].
       destruct (step_qual_cont excl Hex s m k x c Hm Hk2 Hg) as (O & S).
-      + exists [], c. repeat split; assumption.
+      + apply mchunk_tail. exact Hc1.
       + apply mchunk_hd. exact Hc1.
       + exact Hs1.
       + exact C1.
@@ -462,7 +477,6 @@ Section qual_lines.
         * reflexivity.
         * apply fts_frame_set.
       + cbn [forallb] in W2. apply andb_prop in W2. destruct W2 as [W2 _]. apply andb_prop in W2. destruct W2 as [_ Hdq].
-        apply negb_true_iff in Hdq.
         rewrite render_qtext. cbn [qtext_go apply_qual concat]. rewrite app_nil_r.
         replace ((ind ++ "/"%byte :: k ++ "="%byte :: dq :: c0) ++ [dq]) with (ind ++ "/"%byte :: k ++ "="%byte :: (dq :: c0 ++ [dq]))
           by (rewrite <- app_assoc; cbn [app]; rewrite <- app_assoc; reflexivity).
@@ -479,15 +493,16 @@ Section qual_lines.
       + apply andb_prop in W3. destruct W3 as [Wne Wsl].
         assert (Hch : Forall mchunk (c0 :: c1 :: r)).
         { apply Forall_forall. intros c Hin. rewrite forallb_forall in Wne, W2. specialize (Wne c Hin). specialize (W2 c Hin).
-          apply andb_prop in Wne. apply andb_prop in W2. destruct Wne as [N1 N2], W2 as [_ N3].
-          split; [apply nonempty_ne; exact N1|split; [exact N2|now apply negb_true_iff]]. }
+          apply andb_prop in Wne. apply andb_prop in W2. destruct Wne as [N1 N2b], W2 as [_ N3]. apply andb_prop in N1. destruct N1 as [N1 N2a].
+          split; [apply nonempty_ne; exact N1|split; [split; now apply negb_true_iff|exact N3]]. }
         assert (Hsl : Forall (fun c => byte_eqb "/" (hd sp c) = false) (c1 :: r)).
         { apply Forall_forall. intros c Hin. rewrite forallb_forall in Wsl. apply slash_hd. apply Wsl. exact Hin. }
-        inversion Hch as [|? ? H0 Hrest]; subst. destruct H0 as (C1 & C2 & C3).
+        inversion Hch as [|? ? H0 Hrest]; subst. pose proof H0 as (C1 & C2 & C3).
         rewrite render_qtext. cbn [qtext_go apply_qual].
         destruct (step_qual_kv excl Hex s m k (dq :: c0) Hm Hk) as (O & S).
-        { exists ("/"%byte :: k ++ "="%byte :: [dq]), c0. split; [|split; assumption].
-          cbn [app]. rewrite <- app_assoc. reflexivity. }
+        { destruct (mchunk_tail c0 H0) as (a0 & g0 & E0 & G1 & G2).
+          exists ("/"%byte :: k ++ "="%byte :: dq :: a0), g0. split; [|split; assumption].
+          rewrite E0. cbn [app]. rewrite <- app_assoc. reflexivity. }
         assert (Q0 : qvalue (dq :: c0) = QS c0).
         { unfold qvalue. cbn [startswith]. rewrite byte_eqb_refl. cbn [andb negb]. now rewrite strip_char_open. }
         rewrite Q0 in S.
@@ -510,7 +525,7 @@ Section qual_lines.
         assert (byte_eqb dq c = false) as -> by (destruct c; try reflexivity; vm_compute in Hc; discriminate Hc). reflexivity.
       * apply fts_frame_set.
     - (* unquoted word *)
-      apply andb_prop in W. destruct W as [W Hpy]. apply andb_prop in W. destruct W as [W Hnd].
+      apply andb_prop in W. destruct W as [W Hnd].
       apply andb_prop in W. destruct W as [W Hnw]. apply andb_prop in W. destruct W as [W Hpr].
       apply andb_prop in W. destruct W as [W Hne].
       destruct (wf_qkey_facts k W) as [Hk Hkm]. split; [|apply misc_ok_other; assumption].
@@ -520,9 +535,11 @@ Section qual_lines.
         cbn [app]. rewrite <- app_assoc. reflexivity. }
       split; [constructor; [exact O|constructor]|]. eexists. split; [|split].
       * cbn [steps_any]. rewrite step_is_fts by exact Hmo. rewrite S. reflexivity.
-      * cbn [ftmeta set_ft]. unfold qvalue. destruct (py_int v); [discriminate Hpy|].
-        destruct v as [|c t]; [discriminate Hne|]. cbn [startswith].
-        apply negb_true_iff in Hnd. apply has_false_cons in Hnd. destruct Hnd as [Hnd _]. rewrite Hnd. reflexivity.
+      * cbn [ftmeta set_ft]. unfold qvalue, raw_val.
+        assert (Hst : startswith [dq] v = false).
+        { destruct v as [|c t]; [discriminate Hne|]. cbn [startswith].
+          apply negb_true_iff in Hnd. apply has_false_cons in Hnd. destruct Hnd as [Hnd _]. now rewrite Hnd. }
+        rewrite Hst. reflexivity.
       * apply fts_frame_set.
     - (* flag *)
       apply andb_prop in W. destruct W as [W1 W2]. assert (Hk : is_wordstr k) by (split; [apply nonempty_ne; exact W1|exact W2]).
@@ -623,7 +640,7 @@ Proof.
   destruct q as [k cs|k d|k v|k]; [right|right|right|left; reflexivity]; cbn [wf_qual qkey] in *.
   - apply andb_prop in H. destruct H as [H _]. apply andb_prop in H. destruct H as [H _]. apply wf_qkey_facts in H. tauto.
   - apply andb_prop in H. destruct H as [H _]. apply wf_qkey_facts in H. tauto.
-  - do 5 (apply andb_prop in H; destruct H as [H _]). apply wf_qkey_facts in H. tauto.
+  - do 4 (apply andb_prop in H; destruct H as [H _]). apply wf_qkey_facts in H. tauto.
 Qed.
 Lemma flag_names_noflag qs : has_flag qs = false -> flag_names qs = [].
 Proof.
@@ -653,8 +670,8 @@ Proof.
     destruct (wf_qkey_facts k Wq) as [_ Hm]. apply (NF k (QS (concat cs))); auto.
   - cbn [wf_qual] in Wq. apply andb_prop in Wq. destruct Wq as [Wq _].
     destruct (wf_qkey_facts k Wq) as [_ Hm]. apply (NF k (QI (dval d))); auto.
-  - cbn [wf_qual] in Wq. do 5 (apply andb_prop in Wq; destruct Wq as [Wq _]).
-    destruct (wf_qkey_facts k Wq) as [_ Hm]. apply (NF k (QS v)); auto.
+  - cbn [wf_qual] in Wq. do 4 (apply andb_prop in Wq; destruct Wq as [Wq _]).
+    destruct (wf_qkey_facts k Wq) as [_ Hm]. apply (NF k (raw_val v)); auto.
   - clear NF. cbn [filter nonflag is_flag negb map] in D. rewrite app_nil_r in D. rewrite (IH Wp D).
     cbn [apply_qual flag_names flat_map app]. destruct (vq_aget_misc pre (flag_names pre) Kp) as [_ Hg]. rewrite Hg.
     destruct (has_flag pre) eqn:Hf.
